@@ -18,6 +18,7 @@ type Check struct {
 	Tier     string
 	Level    string
 	Only     string // replay: only the case with this id
+	OnlyCompany []string // replay: the cases that must be processed by the same invocation (ids, in order)
 	Collect   bool      // collect mode: JudgeAll only records the cases (used to reuse families in other properties)
 	Collected []*Case
 	Deadline time.Time
@@ -188,8 +189,12 @@ func (c *Check) JudgeAll(cases []*Case) []*Result {
 	}
 	if c.Only != "" {
 		var f []*Case
+		inCompany := map[string]bool{}
+		for _, id := range c.OnlyCompany {
+			inCompany[id] = true
+		}
 		for _, cs := range cases {
-			if cs.ID == c.Only {
+			if cs.ID == c.Only || inCompany[cs.ID] {
 				f = append(f, cs)
 			}
 		}
@@ -209,6 +214,9 @@ func (c *Check) JudgeAll(cases []*Case) []*Result {
 		}
 		if len(vs) == 0 {
 			continue
+		}
+		if c.Only != "" && r.Case.ID != c.Only {
+			continue // replay in company: only the recorded case is reported
 		}
 		// group by symptom: one report per (case, symptom)
 		seen := map[string]bool{}
@@ -264,12 +272,41 @@ func (c *Check) JudgeAll(cases []*Case) []*Result {
 				c.Coverage["timeouts_not_reproduced_alone"] = n + 1
 				continue
 			}
+			var company []string
+			if !ok && len(r.Company) > 1 {
+				// Not alone - but perhaps whenever the same packages are processed by one invocation: the whole
+				// batch is repeated (twice); a symptom that returns both times depends on the company, not on chance.
+				again := 0
+				for i := 0; i < 2; i++ {
+					rr := c.R.RunInCompany(r.Company, r.Case.ID)
+					if rr == nil {
+						break
+					}
+					for _, v2 := range r.Case.Judge(rr) {
+						if v2.Symptom == v.Symptom {
+							again++
+							last = rr
+							break
+						}
+					}
+				}
+				if again == 2 {
+					ok = true
+					v.Detail = "only when processed by one wire invocation together with the other packages of its batch (reproduced in every repetition of the batch, never alone):\n" + v.Detail
+					for _, cc := range r.Company {
+						company = append(company, cc.ID)
+					}
+				}
+			}
 			if !ok {
 				c.Internalf("candidate violation %s [%s] did not reproduce when run alone: %s", v.CaseID, v.Symptom, v.Detail)
 				continue
 			}
 			c.Violations = append(c.Violations, v)
 			c.writeReplay(r.Case, v, last, n)
+			if company != nil {
+				c.addCompany(company)
+			}
 		}
 	}
 	c.Internal = append(c.Internal, c.R.InternalErr...)
@@ -340,6 +377,25 @@ func (c *Check) writeReplay(cs *Case, v Violation, r *Result, reruns int) {
 	b, _ := json.MarshalIndent(m, "", " ")
 	os.WriteFile(filepath.Join(dir, "replay.json"), b, 0o644)
 	c.replayPaths = append(c.replayPaths, dir)
+}
+
+// addCompany records, in the replay artefact written last, the ids of the cases that have to be processed together.
+func (c *Check) addCompany(ids []string) {
+	if len(c.replayPaths) == 0 {
+		return
+	}
+	p := filepath.Join(c.replayPaths[len(c.replayPaths)-1], "replay.json")
+	b, err := os.ReadFile(p)
+	if err != nil {
+		return
+	}
+	var m map[string]interface{}
+	if json.Unmarshal(b, &m) != nil {
+		return
+	}
+	m["company"] = ids
+	b, _ = json.MarshalIndent(m, "", " ")
+	os.WriteFile(p, b, 0o644)
 }
 
 // Finish writes the evidence file, prints the verdict lines and returns the exit code.
